@@ -61,6 +61,9 @@ func checkC11(p *Program, r *Reporter) {
 		return
 	}
 	oldQueryRule(p, r, h)
+	if aac := p.mustFunc(r, pkgPatch, "addAttrChanges"); aac != nil {
+		attrOpsRule(p, r, aac)
+	}
 	if aec := p.mustFunc(r, pkgPatch, "addElemChanges"); aec != nil {
 		anchorAdvanceRule(p, r, aec)
 	}
